@@ -170,6 +170,25 @@ func (e *Env) Close() {
 	}
 }
 
+// Shutdown is Close for an instance that will not be used again: it also closes the
+// persister's own database connection (the project gives it no Close; streams that build
+// thousands of short-lived instances would otherwise run out of file descriptors).
+func (e *Env) Shutdown() {
+	e.Close()
+	defer func() { recover() }()
+	v := reflect.ValueOf(e.MP).Elem().FieldByName("sqlite")
+	if !v.IsValid() || v.IsNil() {
+		return
+	}
+	db := v.Elem().FieldByName("DB")
+	if !db.IsValid() || db.IsNil() {
+		return
+	}
+	if c, ok := reflect.NewAt(db.Type(), unsafe.Pointer(db.UnsafeAddr())).Elem().Interface().(*sql.DB); ok && c != nil {
+		c.Close()
+	}
+}
+
 // ---- canonical encodings shared with the Lean driver ----
 
 func EncName(s string) string {
